@@ -47,14 +47,21 @@ theorem cachedParams_mid_iff_ext (hasExt u : Bool) (m : RMeta) :
   cases hasExt <;> simp <;> split <;> simp_all
 
 /-- result.rs:901-945 -/
-theorem metaUsed_server (cached : Option RMeta) (r : RowsResp) (h : r.noMeta = false) :
-    metaUsed cached r = ⟨r.newId, r.colCount, r.cols⟩ := by simp [metaUsed, h]
+theorem metaUsed_server (ext : Bool) (cached : Option RMeta) (r : RowsResp) (h : r.noMeta = false) :
+    metaUsed ext cached r = ⟨if ext then r.newId else none, r.colCount, r.cols⟩ := by simp [metaUsed, newIdSeen, h]
 
-theorem metaUsed_cached (c : RMeta) (r : RowsResp) (h : r.noMeta = true) : metaUsed (some c) r = c := by
+theorem metaUsed_cached (ext : Bool) (c : RMeta) (r : RowsResp) (h : r.noMeta = true) : metaUsed ext (some c) r = c := by
   simp [metaUsed, h]
 
-theorem metaUsed_none (r : RowsResp) (h : r.noMeta = true) : metaUsed none r = RMeta.empty := by
+theorem metaUsed_none (ext : Bool) (r : RowsResp) (h : r.noMeta = true) : metaUsed ext none r = RMeta.empty := by
   simp [metaUsed, h]
+
+/-- result.rs:767, 820: without the extension the METADATA_CHANGED flag is not honoured: the metadata a response
+carries never has an id, and NO_METADATA is never a parse error -/
+theorem noext_ignores_new_id (cached : Option RMeta) (r : RowsResp) :
+    rowsMalformed false r = false ∧ (r.noMeta = false → (metaUsed false cached r).id = none) := by
+  simp [rowsMalformed, newIdSeen, metaUsed]
+  intro h; simp [h]
 
 /-- connection.rs:938-972: after a response whose metadata carries an id, the statement carries that id … -/
 theorem handleNewId_id (cur mu : RMeta) (m : Id) (h : mu.id = some m) : (handleNewId cur mu).id = some m := by
@@ -91,12 +98,12 @@ theorem handleNewId_noid (cur mu : RMeta) (h : mu.id = none) : handleNewId cur m
   simp [handleNewId, h]
 
 /-- connection.rs:705-711 -/
-theorem reprepare_id_mismatch (stmtId : Id) (cur : RMeta) (p : PrepResp) (h : p.id ≠ stmtId) :
+theorem reprepare_id_mismatch (stmtId : SId) (cur : RMeta) (p : PrepResp) (h : p.id ≠ stmtId) :
     reprepare stmtId cur p = .error .idChanged := by
   simp [reprepare, h]
 
 /-- connection.rs:713-742: complete characterisation of the metadata after a successful re-preparation -/
-theorem reprepare_ok (stmtId : Id) (cur : RMeta) (p : PrepResp) (h : p.id = stmtId) :
+theorem reprepare_ok (stmtId : SId) (cur : RMeta) (p : PrepResp) (h : p.id = stmtId) :
     reprepare stmtId cur p = .ok
       (if (prepMeta p).id.isSome ∧ (cur.colCount = 0 ∨ (prepMeta p).colCount ≠ 0) ∧ cur.id ≠ (prepMeta p).id
        then prepMeta p else cur) := by
@@ -110,7 +117,7 @@ theorem reprepare_ok (stmtId : Id) (cur : RMeta) (p : PrepResp) (h : p.id = stmt
 
 /-- `nonempty_never_replaced_by_empty` (connection.rs:721-736): non-empty current metadata is never replaced by the
 empty metadata of a PREPARED response. -/
-theorem nonempty_never_replaced_by_empty (stmtId : Id) (cur : RMeta) (p : PrepResp)
+theorem nonempty_never_replaced_by_empty (stmtId : SId) (cur : RMeta) (p : PrepResp)
     (hcur : cur.colCount ≠ 0) (hp : (prepMeta p).colCount = 0) :
     reprepare stmtId cur p = .ok cur ∨ reprepare stmtId cur p = .error .idChanged := by
   by_cases h : p.id = stmtId
@@ -119,14 +126,14 @@ theorem nonempty_never_replaced_by_empty (stmtId : Id) (cur : RMeta) (p : PrepRe
 
 /-- a connection WITHOUT the extension never changes the current metadata on re-preparation
 (connection.rs:715-717: `id().is_none()` → return) -/
-theorem reprepare_noext_keeps (stmtId : Id) (cur : RMeta) (p : PrepResp) (hm : p.mid = none) (h : p.id = stmtId) :
+theorem reprepare_noext_keeps (stmtId : SId) (cur : RMeta) (p : PrepResp) (hm : p.mid = none) (h : p.id = stmtId) :
     reprepare stmtId cur p = .ok cur := by
   rw [reprepare_ok _ _ _ h]; simp [prepMeta, hm]
 
 -- non-vacuity: a late0 statement, metadata learnt from an EXECUTE, then re-prepared
-example : reprepare "q0v0" ⟨some "m3", 2, [⟨"a", .int⟩, ⟨"b", .text⟩]⟩ ⟨"q0v0", some "mE", true, 0, []⟩
+example : reprepare ⟨0, 0⟩ ⟨some "m3", 2, [⟨"a", .int⟩, ⟨"b", .text⟩]⟩ ⟨⟨0, 0⟩, some "mE", true, 0, []⟩
     = .ok ⟨some "m3", 2, [⟨"a", .int⟩, ⟨"b", .text⟩]⟩ := by rfl
-example : reprepare "q0v0" ⟨some "mE", 0, []⟩ ⟨"q0v0", some "m1", false, 1, [⟨"a", .int⟩]⟩
+example : reprepare ⟨0, 0⟩ ⟨some "mE", 0, []⟩ ⟨⟨0, 0⟩, some "m1", false, 1, [⟨"a", .int⟩]⟩
     = .ok ⟨some "m1", 1, [⟨"a", .int⟩]⟩ := by rfl
 example : handleNewId ⟨some "m3", 0, []⟩ ⟨some "m3", 1, [⟨"a", .int⟩]⟩ = ⟨some "m3", 1, [⟨"a", .int⟩]⟩ := by decide
 example : cachedParams true false ⟨none, 1, [⟨"a", .int⟩]⟩ = ⟨true, some ⟨none, 1, [⟨"a", .int⟩]⟩, some ""⟩ := by decide
@@ -150,13 +157,13 @@ private theorem finish_caller (st : State) (k j : Nat) (o : Outcome) (h : j ≠ 
 private theorem send_caller (st : State) (k j : Nat) (pc : Pc) (n : Nat) (r : Req) (h : j ≠ k) :
     ((send st k pc n r).1.caller j) = st.caller j := by simp [send, setCaller, h]
 
-@[simp] private theorem handleResp_caller (st : State) (o : Nat) (c : Option RMeta) (r : Resp) :
-    (handleResp st o c r).caller = st.caller := by
+@[simp] private theorem handleResp_caller (st : State) (e : Bool) (o : Nat) (c : Option RMeta) (r : Resp) :
+    (handleResp st e o c r).caller = st.caller := by
   cases r <;> simp [handleResp, setCur]
   split <;> rfl
 
-@[simp] private theorem handleResp_node (st : State) (o : Nat) (c : Option RMeta) (r : Resp) :
-    (handleResp st o c r).node = st.node := by
+@[simp] private theorem handleResp_node (st : State) (e : Bool) (o : Nat) (c : Option RMeta) (r : Resp) :
+    (handleResp st e o c r).node = st.node := by
   cases r <;> simp [handleResp, setCur]
   split <;> rfl
 
@@ -186,18 +193,38 @@ theorem other_steps_keep_caller (st : State) (x : Step) (j : Nat) (h : stepCalle
 
 /-! ## Part A.2 — the driver's reactions, for every state -/
 
+/-- every field of an EXECUTE frame except the skip flag and the presented metadata id comes from the statement
+object (id) and the operation (complete value list, consistency, serial consistency, timestamp, page size, paging
+state) -/
+theorem execFrame_fields (s : Stmt) (op : ExecOp) (cp : CParams) :
+    execFrame s op cp = ⟨s.id, cp.mid, cp.skip, op.values, op.cl, op.scl, op.ts, op.pageSize, op.ps⟩ := rfl
+
+/-- two frames of the same operation and statement differ at most in skip flag and presented metadata id -/
+def SameButMetadata (a b : ExecReq) : Prop :=
+  a.id = b.id ∧ a.values = b.values ∧ a.cl = b.cl ∧ a.scl = b.scl ∧ a.ts = b.ts ∧ a.pageSize = b.pageSize ∧ a.ps = b.ps
+
+/-- connection.rs:1055-1063: the statement's own timestamp wins; otherwise one is drawn from the connection's
+generator (if it has one) exactly once, when the request is first built. -/
+theorem drawTs_spec (st : State) (node : Nat) (own : Option Int) :
+    (own.isSome → drawTs st node own = (own, st.tsCtr)) ∧
+    (own = none → (st.node node).gen = false → drawTs st node own = (none, st.tsCtr)) ∧
+    (own = none → (st.node node).gen = true →
+      drawTs st node own = (some (Int.ofNat (1000000 + st.tsCtr)), st.tsCtr + 1)) := by
+  cases own <;> simp [drawTs]
+
 /-- connection.rs:1061-1090. The EXECUTE an execution starts with says what the caller asked for, carries the id of
 the statement object, and its metadata parameters (skip flag, presented id, cached metadata kept for decoding) are
 computed from the statement's result metadata AS OF THIS MOMENT. -/
 theorem request_built_from_current_metadata (st : State) (k : Nat) (a : ExecArgs) (o : Nat)
     (hidle : st.caller k = ⟨.idle, .none⟩) (hslot : st.slot a.slot = some o) :
     let cp := cachedParams (st.node a.node).ext a.useCached (st.objs o).cur
-    let op : ExecOp := ⟨o, a.node, a.useCached, a.cl, a.ts, a.pageSize, a.ps, a.value⟩
-    let rq : Req := .execute ⟨(st.objs o).id, cp.mid, cp.skip, [a.value], a.cl, a.ts, a.pageSize, a.ps⟩
-    start st k (.execute a) = (setCaller st k ⟨.exec1 op cp.cached, .req a.node rq⟩, .sent a.node rq) := by
-  simp [start, hidle, hslot, execFrame]
+    let op : ExecOp := ⟨o, a.node, a.useCached, a.cl, a.scl, (drawTs st a.node a.ts).1, a.pageSize, a.ps, a.values⟩
+    let rq : Req := .execute (execFrame (st.objs o) op cp)
+    start st k (.execute a) =
+      (setCaller { st with tsCtr := (drawTs st a.node a.ts).2 } k ⟨.exec1 op cp.cached, .req a.node rq⟩, .sent a.node rq) := by
+  simp [start, hidle, hslot]
 
-theorem exec_unprepared_sends_prepare (st : State) (k : Nat) (op : ExecOp) (cached : Option RMeta) (uid : Id)
+theorem exec_unprepared_sends_prepare (st : State) (k : Nat) (op : ExecOp) (cached : Option RMeta) (uid : SId)
     (hc : st.caller k = ⟨.exec1 op cached, .resp (.unprepared uid)⟩) :
     recv st k = (setCaller st k ⟨.execPrep op, .req op.node (.prepare (st.objs op.obj).text)⟩,
                  .sent op.node (.prepare (st.objs op.obj).text)) := by
@@ -207,7 +234,7 @@ theorem exec_reprepared_resends (st : State) (k : Nat) (op : ExecOp) (p : PrepRe
     (hc : st.caller k = ⟨.execPrep op, .resp (.prepared p)⟩) (hid : p.id = (st.objs op.obj).id) :
     ∃ cur', reprepare (st.objs op.obj).id (st.objs op.obj).cur p = .ok cur' ∧
       let cp := cachedParams (st.node op.node).ext op.useCached cur'
-      let rq : Req := .execute ⟨(st.objs op.obj).id, cp.mid, cp.skip, [op.value], op.cl, op.ts, op.pageSize, op.ps⟩
+      let rq : Req := .execute (execFrame (st.objs op.obj) op cp)
       recv st k = (setCaller (setCur st op.obj cur') k ⟨.exec2 op cp.cached, .req op.node rq⟩, .sent op.node rq) := by
   rw [reprepare_ok _ _ _ hid]
   refine ⟨_, rfl, ?_⟩
@@ -217,44 +244,47 @@ theorem exec_reprepared_resends (st : State) (k : Nat) (op : ExecOp) (p : PrepRe
 
 theorem exec_final_response_is_outcome (st : State) (k : Nat) (op : ExecOp) (cached : Option RMeta) (r : Resp)
     (hc : st.caller k = ⟨.exec2 op cached, .resp r⟩) :
-    recv st k = (setCaller (handleResp st op.obj cached r) k ⟨.idle, .none⟩, .done (execOutcome cached r)) := by
+    recv st k = (setCaller (handleResp st (st.node op.node).ext op.obj cached r) k ⟨.idle, .none⟩,
+                 .done (execOutcome (st.node op.node).ext cached r)) := by
   simp [recv, hc, finish]
 
 theorem exec_first_response_is_outcome (st : State) (k : Nat) (op : ExecOp) (cached : Option RMeta) (r : Resp)
     (hc : st.caller k = ⟨.exec1 op cached, .resp r⟩) (hr : ∀ uid, r ≠ .unprepared uid) :
-    recv st k = (setCaller (handleResp st op.obj cached r) k ⟨.idle, .none⟩, .done (execOutcome cached r)) := by
+    recv st k = (setCaller (handleResp st (st.node op.node).ext op.obj cached r) k ⟨.idle, .none⟩,
+                 .done (execOutcome (st.node op.node).ext cached r)) := by
   cases r with
   | unprepared uid => exact absurd rfl (hr uid)
   | _ => simp [recv, hc, finish]
 
-/-- `unprepared_transparent`. If the first EXECUTE is answered UNPREPARED, then (1) a PREPARE of the same statement
-text is sent to the same node; (2) at whatever later point of the interleaving the PREPARED response with the same
-id arrives, the same EXECUTE — same id, values, consistency, timestamp, page size, paging state; only the skip flag
-and the presented result-metadata id are recomputed — is sent to the same node; (3) at whatever later point its
-response arrives, that response is what the caller sees. (`other_steps_keep_caller` and
-`statement_identity_immutable` say that the steps in between cannot change the caller's program counter or the
-statement's id and text, so the three hypotheses are met in every interleaving.) -/
-theorem unprepared_transparent (st : State) (k : Nat) (op : ExecOp) (cached : Option RMeta) (uid : Id)
+/-- `unprepared_transparent`, single steps (the history-level statement is `eviction_transparent` below). If the
+first EXECUTE is answered UNPREPARED, then (1) a PREPARE of the same statement text is sent to the same node; (2) in
+any state in which this caller waits for the re-preparation and the PREPARED response with the same id is delivered,
+the same EXECUTE — same id, complete value list, consistency, serial consistency, timestamp, page size, paging state;
+only the skip flag and the presented result-metadata id are recomputed — is sent to the same node; (3) in any state
+in which that EXECUTE's response is delivered, that response is what the caller sees. `caller_untouched_by_others`
+and `statement_identity_immutable` say that no interleaved step of another caller and no node event changes this
+caller's program counter or the statement's id and text, so (2) and (3) apply at every later point of every history. -/
+theorem unprepared_transparent (st : State) (k : Nat) (op : ExecOp) (cached : Option RMeta) (uid : SId)
     (h1 : st.caller k = ⟨.exec1 op cached, .resp (.unprepared uid)⟩) :
     (recv st k).2 = .sent op.node (.prepare (st.objs op.obj).text) ∧
     (recv st k).1.caller k = ⟨.execPrep op, .req op.node (.prepare (st.objs op.obj).text)⟩ ∧
     (∀ (st2 : State) (p : PrepResp), st2.caller k = ⟨.execPrep op, .resp (.prepared p)⟩ → p.id = (st2.objs op.obj).id →
-      ∃ mid skip cached2,
-        let rq : Req := .execute ⟨(st2.objs op.obj).id, mid, skip, [op.value], op.cl, op.ts, op.pageSize, op.ps⟩
-        (recv st2 k).2 = .sent op.node rq ∧ (recv st2 k).1.caller k = ⟨.exec2 op cached2, .req op.node rq⟩) ∧
+      ∃ rq cached2,
+        (recv st2 k).2 = .sent op.node (.execute rq) ∧
+        (recv st2 k).1.caller k = ⟨.exec2 op cached2, .req op.node (.execute rq)⟩ ∧
+        rq.id = (st2.objs op.obj).id ∧ rq.values = op.values ∧ rq.cl = op.cl ∧ rq.scl = op.scl ∧ rq.ts = op.ts ∧
+        rq.pageSize = op.pageSize ∧ rq.ps = op.ps) ∧
     (∀ (st3 : State) (cached2 : Option RMeta) (r : Resp), st3.caller k = ⟨.exec2 op cached2, .resp r⟩ →
-      (recv st3 k).2 = .done (execOutcome cached2 r) ∧ (recv st3 k).1.caller k = ⟨.idle, .none⟩) := by
+      (recv st3 k).2 = .done (execOutcome (st3.node op.node).ext cached2 r) ∧ (recv st3 k).1.caller k = ⟨.idle, .none⟩) := by
   refine ⟨?_, ?_, ?_, ?_⟩
   · rw [exec_unprepared_sends_prepare st k op cached uid h1]
   · rw [exec_unprepared_sends_prepare st k op cached uid h1]; simp [setCaller]
   · intro st2 p h2 hid
     obtain ⟨cur', _, h⟩ := exec_reprepared_resends st2 k op p h2 hid
-    refine ⟨(cachedParams (st2.node op.node).ext op.useCached cur').mid,
-      (cachedParams (st2.node op.node).ext op.useCached cur').skip,
-      (cachedParams (st2.node op.node).ext op.useCached cur').cached, ?_⟩
     simp only at h
     rw [h]
-    exact ⟨rfl, by simp [setCaller]⟩
+    exact ⟨_, (cachedParams (st2.node op.node).ext op.useCached cur').cached, rfl, by simp [setCaller],
+      rfl, rfl, rfl, rfl, rfl, rfl, rfl⟩
   · intro st3 cached2 r h3
     rw [exec_final_response_is_outcome st3 k op cached2 r h3]
     exact ⟨rfl, by simp [setCaller]⟩
@@ -272,6 +302,12 @@ theorem reprepare_failure_is_error (st : State) (k : Nat) (op : ExecOp) (c : Nat
     recv st k = (setCaller st k ⟨.idle, .none⟩, .done (.dbError c)) := by
   simp [recv, hc, finish]
 
+/-- a non-PREPARED result to the re-preparation (never sent by a real node) is UnexpectedResponse -/
+theorem reprepare_unexpected_result_is_error (st : State) (k : Nat) (op : ExecOp) (r : Resp)
+    (hc : st.caller k = ⟨.execPrep op, .resp r⟩) (hr : r = .void ∨ ∃ rr, r = .rows rr) :
+    recv st k = (setCaller st k ⟨.idle, .none⟩, .done .unexpectedResponse) := by
+  rcases hr with rfl | ⟨rr, rfl⟩ <;> simp [recv, hc, finish]
+
 theorem batch_reprepare_id_mismatch_is_error (st : State) (k : Nat) (op : BatchOp) (frame : BatchReq) (o : Nat)
     (p : PrepResp) (hc : st.caller k = ⟨.batchPrep op frame o, .resp (.prepared p)⟩) (hid : p.id ≠ (st.objs o).id) :
     recv st k = (setCaller st k ⟨.idle, .none⟩, .done .repreparedIdChanged) := by
@@ -279,14 +315,14 @@ theorem batch_reprepare_id_mismatch_is_error (st : State) (k : Nat) (op : BatchO
 
 /-- `execute_carries_statement_id`: whenever any step of any history puts an EXECUTE on the wire, it carries the id
 of the statement object of that caller's operation (ids of statement objects never change:
-`statement_identity_immutable`), the operation's value, and goes to the operation's node. In particular an id
-learnt from a re-preparation is never executed. -/
+`statement_identity_immutable`), the operation's complete value list and parameters, and goes to the operation's node.
+In particular an id learnt from a re-preparation is never executed. -/
 theorem execute_carries_statement_id (st : State) (x : Step) (n : Nat) (r : ExecReq)
     (h : (step st x).2 = .sent n (.execute r)) :
     ∃ k op cached, stepCaller x = some k ∧
       (((step st x).1.caller k).pc = .exec1 op cached ∨ ((step st x).1.caller k).pc = .exec2 op cached) ∧
-      r.id = ((step st x).1.objs op.obj).id ∧ r.values = [op.value] ∧ n = op.node ∧
-      r.cl = op.cl ∧ r.ts = op.ts ∧ r.pageSize = op.pageSize ∧ r.ps = op.ps := by
+      r.id = ((step st x).1.objs op.obj).id ∧ r.values = op.values ∧ n = op.node ∧
+      r.cl = op.cl ∧ r.scl = op.scl ∧ r.ts = op.ts ∧ r.pageSize = op.pageSize ∧ r.ps = op.ps := by
   cases x with
   | event n' e => simp [step, eventStep] at h
   | serve k => simp only [step, serveStep] at h; split at h <;> simp at h
@@ -304,7 +340,7 @@ theorem execute_carries_statement_id (st : State) (x : Step) (n : Nat) (r : Exec
           simp only [Obs.sent.injEq, Req.execute.injEq] at h
           obtain ⟨hn, hr⟩ := h
           subst hn hr
-          exact ⟨k, ⟨o, a.node, a.useCached, a.cl, a.ts, a.pageSize, a.ps, a.value⟩,
+          exact ⟨k, ⟨o, a.node, a.useCached, a.cl, a.scl, (drawTs st a.node a.ts).1, a.pageSize, a.ps, a.values⟩,
             (cachedParams (st.node a.node).ext a.useCached (st.objs o).cur).cached, rfl,
             Or.inl (by simp [setCaller]), by simp [setCaller, execFrame], by simp [execFrame], rfl,
             by simp [execFrame]⟩
@@ -336,13 +372,13 @@ theorem execute_carries_statement_id (st : State) (x : Step) (n : Nat) (r : Exec
             obtain ⟨hn, hr'⟩ := h
             subst hn hr'
             exact ⟨k, op, (cachedParams (st.node op.node).ext op.useCached cur').cached, rfl,
-              Or.inr (by simp [setCaller]), by simp [setCaller, setCur], rfl, rfl, rfl, rfl, rfl, rfl⟩
+              Or.inr (by simp [setCaller]), by simp [setCaller, setCur, execFrame], rfl, rfl, rfl, rfl, rfl, rfl, rfl⟩
           · rw [reprepare_id_mismatch_is_error st k op p hck hid] at h; simp at h
         | _ => simp [recv, hck, finish] at h
 
 /-! ### batches -/
 
-private theorem findInBatch_none (objs : Nat → Stmt) (id : Id) (items : List (Nat × Nat))
+private theorem findInBatch_none (objs : Nat → Stmt) (id : SId) (items : List (Nat × List Nat))
     (h : ∀ it ∈ items, (objs it.1).id ≠ id) : findInBatch objs id items = none := by
   induction items with
   | nil => rfl
@@ -352,7 +388,7 @@ private theorem findInBatch_none (objs : Nat → Stmt) (id : Id) (items : List (
     simp only [findInBatch, beq_iff_eq, hx, ↓reduceIte]
     exact ih (fun it hit => h it (by simp [hit]))
 
-private theorem findInBatch_none_imp (objs : Nat → Stmt) (id : Id) (items : List (Nat × Nat))
+private theorem findInBatch_none_imp (objs : Nat → Stmt) (id : SId) (items : List (Nat × List Nat))
     (h : findInBatch objs id items = none) : ∀ it ∈ items, (objs it.1).id ≠ id := by
   induction items with
   | nil => simp
@@ -367,7 +403,7 @@ private theorem findInBatch_none_imp (objs : Nat → Stmt) (id : Id) (items : Li
       · subst e; simpa using hne
       · exact ih h it e
 
-private theorem findInBatch_some (objs : Nat → Stmt) (id : Id) (items : List (Nat × Nat)) (o : Nat)
+private theorem findInBatch_some (objs : Nat → Stmt) (id : SId) (items : List (Nat × List Nat)) (o : Nat)
     (h : findInBatch objs id items = some o) : (∃ v, (o, v) ∈ items) ∧ (objs o).id = id := by
   induction items with
   | nil => simp [findInBatch] at h
@@ -383,16 +419,18 @@ private theorem findInBatch_some (objs : Nat → Stmt) (id : Id) (items : List (
       exact ⟨⟨v', by simp [hv]⟩, hid⟩
 
 /-- connection.rs:1203-1210: the BATCH frame lists the ids of the statement objects with the caller's values -/
-theorem batch_frame_says_what_was_asked (st : State) (k : Nat) (a : BatchArgs) (items : List (Nat × Nat))
+theorem batch_frame_says_what_was_asked (st : State) (k : Nat) (a : BatchArgs) (items : List (Nat × List Nat))
     (hidle : st.caller k = ⟨.idle, .none⟩) (hres : resolveItems st.slot a.items = some items) :
-    let frame : BatchReq := ⟨items.map (fun (o, v) => ((st.objs o).id, v)), a.cl, a.ts⟩
+    let ts := (drawTs st a.node a.ts).1
+    let frame : BatchReq := ⟨items.map (fun (o, v) => ((st.objs o).id, v)), a.cl, a.scl, ts⟩
     start st k (.batch a) =
-      (setCaller st k ⟨.batch ⟨a.node, a.cl, a.ts, items⟩ frame, .req a.node (.batch frame)⟩, .sent a.node (.batch frame)) := by
+      (setCaller { st with tsCtr := (drawTs st a.node a.ts).2 } k
+         ⟨.batch ⟨a.node, a.cl, a.scl, ts, items⟩ frame, .req a.node (.batch frame)⟩, .sent a.node (.batch frame)) := by
   simp [start, hidle, hres]
 
 /-- `batch_unknown_id_is_error`: UNPREPARED naming an id that no statement of the batch has ⇒ the caller gets
 RepreparedIdMissingInBatch, nothing is sent, nothing changes. -/
-theorem batch_unknown_id_is_error (st : State) (k : Nat) (op : BatchOp) (frame : BatchReq) (id : Id)
+theorem batch_unknown_id_is_error (st : State) (k : Nat) (op : BatchOp) (frame : BatchReq) (id : SId)
     (hc : st.caller k = ⟨.batch op frame, .resp (.unprepared id)⟩)
     (hnot : ∀ it ∈ op.items, (st.objs it.1).id ≠ id) :
     recv st k = (setCaller st k ⟨.idle, .none⟩, .done .repreparedIdMissingInBatch) := by
@@ -401,8 +439,8 @@ theorem batch_unknown_id_is_error (st : State) (k : Nat) (op : BatchOp) (frame :
 /-- UNPREPARED naming the id of a statement of the batch ⇒ PREPARE of THAT statement's text to the same node;
 and when (at whatever later point) the PREPARED response with the same id arrives, the IDENTICAL batch frame is sent
 again to the same node (the loop of connection.rs:1212-1245). -/
-theorem batch_known_id_reprepares_and_resends (st : State) (k : Nat) (op : BatchOp) (frame : BatchReq) (id : Id)
-    (hc : st.caller k = ⟨.batch op frame, .resp (.unprepared id)⟩) (it : Nat × Nat) (hit : it ∈ op.items)
+theorem batch_known_id_reprepares_and_resends (st : State) (k : Nat) (op : BatchOp) (frame : BatchReq) (id : SId)
+    (hc : st.caller k = ⟨.batch op frame, .resp (.unprepared id)⟩) (it : Nat × List Nat) (hit : it ∈ op.items)
     (hid : (st.objs it.1).id = id) :
     ∃ o, (∃ v, (o, v) ∈ op.items) ∧ (st.objs o).id = id ∧
       recv st k = (setCaller st k ⟨.batchPrep op frame o, .req op.node (.prepare (st.objs o).text)⟩,
@@ -426,40 +464,56 @@ theorem batch_known_id_reprepares_and_resends (st : State) (k : Nat) (op : Batch
 /-- `decode_metadata_faithful`, driver part: the rows the caller gets are decoded with the metadata the server sent
 along when it sent one; otherwise with the metadata cached FOR THIS REQUEST (the statement's current metadata when
 the request was built, `request_built_from_current_metadata`); otherwise (nothing cached, nothing sent) with the
-empty metadata. -/
+empty metadata. (`ext` = whether the operation's connection negotiated the extension: without it a METADATA_CHANGED
+flag is not honoured, result.rs:767.) -/
 theorem decode_metadata_used (st : State) (k : Nat) (op : ExecOp) (cached : Option RMeta) (r : RowsResp)
     (hpc : (st.caller k).pc = .exec1 op cached ∨ (st.caller k).pc = .exec2 op cached)
-    (hw : (st.caller k).wire = .resp (.rows r)) (hwf : rowsMalformed r = false) :
-    (recv st k).2 = .done (.rows (metaUsed cached r) (decodeRows (metaUsed cached r).cols r.rows.count r.rows.cells) r.more) ∧
-    (metaUsed cached r =
-      if r.noMeta = false then ⟨r.newId, r.colCount, r.cols⟩ else cached.getD RMeta.empty) := by
+    (hw : (st.caller k).wire = .resp (.rows r)) (hwf : rowsMalformed (st.node op.node).ext r = false) :
+    let ext := (st.node op.node).ext
+    (recv st k).2 = .done (.rows (metaUsed ext cached r)
+      (decodeRows (metaUsed ext cached r).cols r.rows.count r.rows.cells) r.more) ∧
+    (metaUsed ext cached r =
+      if r.noMeta = false then ⟨if ext then r.newId else none, r.colCount, r.cols⟩ else cached.getD RMeta.empty) := by
   constructor
   · rcases hpc with hpc | hpc <;> simp [recv, hw, hpc, finish, execOutcome, hwf]
-  · cases hn : r.noMeta <;> cases cached <;> simp [metaUsed, hn]
+  · cases hn : r.noMeta <;> cases cached <;> simp [metaUsed, newIdSeen, hn]
 
-/-- the error branch of `decode_metadata_used`: NO_METADATA together with METADATA_CHANGED is a parse error and
-leaves the statement alone (result.rs:822-825) -/
+/-- the error branch of `decode_metadata_used`: NO_METADATA together with METADATA_CHANGED on a connection with the
+extension is a parse error and leaves the statement alone (result.rs:822-825) -/
 theorem malformed_rows_is_error (st : State) (k : Nat) (op : ExecOp) (cached : Option RMeta) (r : RowsResp)
-    (hc : st.caller k = ⟨.exec2 op cached, .resp (.rows r)⟩) (hwf : rowsMalformed r = true) :
+    (hpc : (st.caller k).pc = .exec1 op cached ∨ (st.caller k).pc = .exec2 op cached)
+    (hw : (st.caller k).wire = .resp (.rows r)) (hwf : rowsMalformed (st.node op.node).ext r = true) :
     recv st k = (setCaller st k ⟨.idle, .none⟩, .done .parseError) := by
-  simp [recv, hc, finish, execOutcome, hwf, handleResp]
+  rcases hpc with hpc | hpc <;> simp [recv, hw, hpc, finish, execOutcome, hwf, handleResp]
+
+/-- a non-UNPREPARED ERROR / a Void answer to an EXECUTE reaches the caller as such and leaves the statement alone.
+Side condition `c ≠ 0x2500`: on the wire ERROR 0x2500 IS the UNPREPARED response (`Resp.unprepared`). -/
+theorem exec_error_or_void_is_outcome (st : State) (k : Nat) (op : ExecOp) (cached : Option RMeta) (r : Resp)
+    (hpc : (st.caller k).pc = .exec1 op cached ∨ (st.caller k).pc = .exec2 op cached)
+    (hw : (st.caller k).wire = .resp r)
+    (hr : r = .void ∨ ∃ c, c ≠ unpreparedCode ∧ r = .error c) :
+    recv st k = (setCaller st k ⟨.idle, .none⟩,
+      .done (match r with | .error c => .dbError c | _ => .void)) := by
+  rcases hr with rfl | ⟨c, _, rfl⟩ <;> rcases hpc with hpc | hpc <;>
+    simp [recv, hw, hpc, finish, execOutcome, handleResp]
 
 /-- the current metadata after a Rows response was handled -/
 theorem cur_after_rows (st : State) (k : Nat) (op : ExecOp) (cached : Option RMeta) (r : RowsResp)
     (hpc : (st.caller k).pc = .exec1 op cached ∨ (st.caller k).pc = .exec2 op cached)
-    (hw : (st.caller k).wire = .resp (.rows r)) (hwf : rowsMalformed r = false) :
-    ((recv st k).1.objs op.obj).cur = handleNewId (st.objs op.obj).cur (metaUsed cached r) := by
+    (hw : (st.caller k).wire = .resp (.rows r)) (hwf : rowsMalformed (st.node op.node).ext r = false) :
+    ((recv st k).1.objs op.obj).cur = handleNewId (st.objs op.obj).cur (metaUsed (st.node op.node).ext cached r) := by
   rcases hpc with hpc | hpc <;> simp [recv, hw, hpc, finish, handleResp, hwf, setCaller, setCur]
 
-/-- `next_execution_presents_latest_id`. After a response carrying metadata with a new id `m` was handled, the
-statement's current metadata has id `m` — it IS the announced metadata, unless the statement already had id `m`
-(then it is kept if it is non-empty or the announced one is empty) — and the next EXECUTE of that statement on a
-connection with the extension presents `m` and asks to skip the metadata, provided the current metadata has columns;
-with zero columns it presents the EMPTY id and asks for the metadata (zero-column rule). -/
+/-- `next_execution_presents_latest_id`. After a response carrying metadata with a new id `m` was handled (on a
+connection with the extension), the statement's current metadata has id `m` — it IS the announced metadata, unless the
+statement already had id `m` (then it is kept if it is non-empty or the announced one is empty) — and the next
+EXECUTE of that statement on a connection with the extension presents `m` and asks to skip the metadata, provided the
+current metadata has columns; with zero columns it presents the EMPTY id and asks for the metadata (zero-column rule). -/
 theorem next_execution_presents_latest_id (st : State) (k : Nat) (op : ExecOp) (cached : Option RMeta)
     (r : RowsResp) (m : Id)
     (hpc : (st.caller k).pc = .exec1 op cached ∨ (st.caller k).pc = .exec2 op cached)
-    (hw : (st.caller k).wire = .resp (.rows r)) (hnm : r.noMeta = false) (hid : r.newId = some m) :
+    (hw : (st.caller k).wire = .resp (.rows r)) (hext0 : (st.node op.node).ext = true)
+    (hnm : r.noMeta = false) (hid : r.newId = some m) :
     let st' := (recv st k).1
     (st'.objs op.obj).cur.id = some m ∧
     ((st'.objs op.obj).cur = ⟨some m, r.colCount, r.cols⟩ ∨
@@ -467,12 +521,13 @@ theorem next_execution_presents_latest_id (st : State) (k : Nat) (op : ExecOp) (
         ((st.objs op.obj).cur.colCount ≠ 0 ∨ r.colCount = 0))) ∧
     (∀ (j : Nat) (a : ExecArgs), st'.caller j = ⟨.idle, .none⟩ → st'.slot a.slot = some op.obj →
       (st'.node a.node).ext = true →
-      ∃ rq cp, (start st' j (.execute a)).2 = .sent a.node (.execute rq) ∧
-        ((start st' j (.execute a)).1.caller j).pc = .exec1 ⟨op.obj, a.node, a.useCached, a.cl, a.ts, a.pageSize, a.ps, a.value⟩ cp ∧
+      ∃ rq cp op', (start st' j (.execute a)).2 = .sent a.node (.execute rq) ∧
+        ((start st' j (.execute a)).1.caller j).pc = .exec1 op' cp ∧ op'.obj = op.obj ∧
         (((st'.objs op.obj).cur.colCount ≠ 0 → rq.mid = some m ∧ rq.skip = true ∧ cp = some (st'.objs op.obj).cur) ∧
          ((st'.objs op.obj).cur.colCount = 0 → rq.mid = some "" ∧ rq.skip = false ∧ cp = none))) := by
-  have hwf : rowsMalformed r = false := by simp [rowsMalformed, hnm]
-  have hmu : metaUsed cached r = ⟨some m, r.colCount, r.cols⟩ := by simp [metaUsed, hnm, hid]
+  have hwf : rowsMalformed (st.node op.node).ext r = false := by simp [rowsMalformed, hnm]
+  have hmu : metaUsed (st.node op.node).ext cached r = ⟨some m, r.colCount, r.cols⟩ := by
+    simp [metaUsed, newIdSeen, hnm, hid, hext0]
   have hcur := cur_after_rows st k op cached r hpc hw hwf
   rw [hmu] at hcur
   intro st'
@@ -486,10 +541,10 @@ theorem next_execution_presents_latest_id (st : State) (k : Nat) (op : ExecOp) (
   · intro j a hidle hslot hext
     have hidm : (st'.objs op.obj).cur.id = some m := by rw [hcur']; exact handleNewId_id _ _ m rfl
     rw [request_built_from_current_metadata st' j a op.obj hidle hslot]
-    refine ⟨_, (cachedParams (st'.node a.node).ext a.useCached (st'.objs op.obj).cur).cached, rfl,
-      by simp [setCaller], ?_, ?_⟩
-    · intro hne; simp [hext, cachedParams_ext_nonempty _ _ hne, hidm]
-    · intro h0; simp [hext, cachedParams_zero_cols _ _ _ h0]
+    refine ⟨_, (cachedParams (st'.node a.node).ext a.useCached (st'.objs op.obj).cur).cached, _, rfl,
+      by simp [setCaller], rfl, ?_, ?_⟩
+    · intro hne; simp [hext, cachedParams_ext_nonempty _ _ hne, hidm, execFrame]
+    · intro h0; simp [hext, cachedParams_zero_cols _ _ _ h0, execFrame]
 
 /-- `nonempty_never_replaced_by_empty`, in the transition system: a PREPARED response announcing zero columns never
 changes a statement whose current metadata has columns (execution and batch re-preparation alike). -/
